@@ -1358,7 +1358,17 @@ func (c *Conn) readLine() (string, error) {
 		}
 	}
 
-	return c.text.ReadLine()
+	// Not c.text.ReadLine: it passes off what came before a read error as a
+	// line, and the head of a line that is too long would run as a command.
+	line, err := c.text.R.ReadString('\n')
+	if err != nil {
+		return "", err
+	}
+	line = line[:len(line)-1]
+	if strings.HasSuffix(line, "\r") {
+		line = line[:len(line)-1]
+	}
+	return line, nil
 }
 
 func (c *Conn) reset() {
